@@ -183,6 +183,8 @@ class BufferedStreamDataConsumer(Generic[_T_ReceivedPacket]):
             self.__save_remainder_in_buffer(remaining)
             return packet
         except StreamProtocolParseError as exc:
+            # remaining_data can be a view to the wrapped buffer, which is about to be overwritten
+            exc.remaining_data = bytes(exc.remaining_data)
             self.__save_remainder_in_buffer(exc.remaining_data)
             raise
         except Exception as exc:
